@@ -105,16 +105,16 @@ contract(Q + 'SamplingOfAlternatives.sample_alternatives', 'C19',
              'chosen_then_sample': 'pd_nparts(result) == 2',
              'chosen_first_with_its_correction': f"forall(lambda q: implies(chosen in self.partition[q].subset, "
                                                  f"same(pd_part(result, 0), pd_setcol({_C0}, '_log_proba', {_LP}))), 0, len(self.partition))",
-             'chosen_first_unchanged_if_in_no_stratum': f"implies(forall(lambda q: chosen not in self.partition[q].subset, 0, len(self.partition)), "
-                                                        f"same(pd_part(result, 0), {_C0}))",
+             'chosen_first_unchanged_if_in_no_stratum': f"exists(lambda q: old(chosen in self.partition[q].subset), 0, old(len(self.partition))) "
+                                                        f"or same(pd_part(result, 0), {_C0})",
              'one_frame_per_stratum': 'pd_nparts(pd_part(result, 1)) == len(self.partition)',
              **{f'stratum_{k}': 'forall(lambda q: ' + v.replace('PART', _SUB) + ', 0, len(self.partition))' for k, v in _ALT_CL.items()},
          },
          invariants={1: {'clauses': {
              'len': 'len(results) == _k',
-             'exist': 'forall(lambda q: allocated(results[q]) and results[q] is not chosen_alternative, 0, _k)',
+             'exist': 'forall(lambda q: allocated(results[q]) and other_object(results[q], chosen_alternative), 0, _k)',
              **{f'done_{k}': 'forall(lambda q: ' + v.replace('PART', 'pd_frame(results[q])') + ', 0, _k)' for k, v in _ALT_CL.items()},
              'chosen_in': f"forall(lambda q: implies(chosen in self.partition[q].subset, "
                           f"same(pd_frame(chosen_alternative), pd_setcol({_C0}, '_log_proba', {_LP}))), 0, _k)",
-             'chosen_out': f"implies(forall(lambda q: chosen not in self.partition[q].subset, 0, _k), same(pd_frame(chosen_alternative), {_C0}))",
+             'chosen_out': f"exists(lambda q: old(chosen in self.partition[q].subset), 0, _k) or same(pd_frame(chosen_alternative), {_C0})",
          }}})
